@@ -18,7 +18,7 @@ set_option linter.unusedSimpArgs false
 set_option linter.unusedVariables false
 
 namespace Fc
-namespace C02
+namespace C02b
 open Mon Fix
 
 /-! ### trace observations -/
@@ -293,7 +293,7 @@ theorem Inv.ofLive {ws n s t} (hn : s.n = n) (h : Live [] t) (ho : ws = true →
 /-- a poll answered before the scan -/
 theorem Inv.pre {ws n s t} (h : Inv ws n s t) (w : Nat) (o : Outcome) (ho : ovals o = []) :
     Inv ws n s (.pollEnd o :: .pollBegin w :: t) :=
-  (h.inert (.pollBegin w) rfl).inert (.pollEnd o) (by simp [C02.inert, ho])
+  (h.inert (.pollBegin w) rfl).inert (.pollEnd o) (by simp [C02b.inert, ho])
 
 /-- a live state starts scanning -/
 theorem Inv.start {ws n s t} (h : Inv ws n s t) (hd : s.dead = false) (w : Nat) :
@@ -498,5 +498,5 @@ theorem holds_of_inv {ws n s t} (h : Inv ws n s t) (h1 : nd t ≤ 1) : holds_C02
       have := hp.acc v
       omega
 
-end C02
+end C02b
 end Fc
